@@ -297,12 +297,22 @@ class SpecLib:
 
     def call_class(self, ex, tag, pos, kw, st, node):
         r = self._plug("call_class", ex, tag, pos, kw, st, node)
+        if r is None and tag[0] == "class" and self.is_exception_class(tag[1]):
+            r = [(st, SV("exc", tag[1].split(".")[-1]))]
         if r is None and tag[0] == "class":
             r = self.dataclass_ctor(ex, tag[1], pos, kw, st)
         if r is None:
             from .exec import Unsupported
             raise Unsupported(f"class call {tag}")
         yield from r
+
+    def is_exception_class(self, qualname):
+        from . import front
+        mod, q = front.split_qualname(qualname)
+        cd = front.load_module(mod).classes.get(q)
+        if cd is None:
+            return False
+        return any(isinstance(b, ast.Name) and (b.id in EXC_NAMES or b.id.endswith("Error") or b.id == "Exception") for b in cd.bases)
 
     def dataclass_ctor(self, ex, qualname, pos, kw, st):
         """frozen @dataclass value classes of the repo (ParsedField): the constructor builds a record."""
